@@ -326,6 +326,33 @@ fn refusal_cases<P: G>(tpl: Arc<Templates<P>>) -> Vec<Box<dyn Case>> {
     cases
 }
 
+/// An accepted member next to a copy of ITSELF in which one response was altered (same statement, same transcript context,
+/// same proof up to that response): the copy does not verify alone, so no layout holding it is accepted
+fn altered_copy_cases<P: G>(tpl: Arc<Templates<P>>) -> Vec<Box<dyn Case>> {
+    let mut cases: Vec<Box<dyn Case>> = Vec::new();
+    let idx = |k: &str| KINDS.iter().position(|x| *x == k).unwrap();
+    for pos in 0..tpl.members.len().min(2) {
+        for alt in ["I", "Ip", "Im"] {
+            for (lname, layout) in [("orig,copy", vec![0usize, 1]), ("copy,orig", vec![1, 0]), ("orig,orig,copy", vec![0, 0, 1]), ("orig,copy,orig", vec![0, 1, 0])] {
+                let tpl = tpl.clone();
+                cases.push(case(format!("{}/d={}/altered-copy/pos={}/{}/{}", P::NAME, tpl.d, pos, alt, lname), move |_v| {
+                    fg::set_intern(tpl.intern.clone());
+                    let mut res = CaseResult::new("explored");
+                    let orig = &tpl.members[pos][idx("V")];
+                    let copy = &tpl.members[pos][idx(alt)];
+                    let batch: Vec<&Member<P>> = layout.iter().map(|k| if *k == 0 { orig } else { copy }).collect();
+                    for mode in [VerifyAction::VerifyOnly, VerifyAction::RecoverAndVerify] {
+                        res.transitions += 1;
+                        check_batch(&batch, mode, mode_name(mode), &mut res);
+                    }
+                    res
+                }));
+            }
+        }
+    }
+    cases
+}
+
 /// Length triples around the chunk limit: a list that is one short (or one long) at a multiple of 256 must be refused like
 /// any other mismatch (a per-chunk check sees only complete chunks there)
 fn long_refusal_cases<P: G>(long: Arc<Templates<P>>) -> Vec<Box<dyn Case>> {
@@ -589,6 +616,7 @@ fn run_group<P: G>(rep: &mut Report) {
         rep.validated += (tpl.members.len() * KINDS.len()) as u64;
         rep.explore("C03", bfs_cases(tpl.clone(), depth));
         rep.explore("C03", refusal_cases(tpl.clone()));
+        rep.explore("C03", altered_copy_cases(tpl.clone()));
         let lengths: Vec<usize> = if thorough {
             vec![255, 256, 257, 511, 512, 513, 600, 1024, 1025]
         } else if d == 1 {
@@ -619,7 +647,7 @@ pub fn run(rep: &mut Report) {
     rep.rule = "history BFS over the member-kind alphabet {V (m=1), V2 (m=2,c=2), Vc (m=1,c=4), S (seeded), Vp (valid, non-zero promise), I (r1+1), J (commitment+H), \
                 Ip/Im (d1[0] +/- delta, cancel under equal weights), X2 (m=2 proof with another degree tag)} to depth 4 (thorough 5), both verifying modes; long batches \
                 L in {255,256,257,511,512,513,600,(1024,1025)} x {all valid, one invalid at each listed position, cancelling pairs, \
-                rotations}; all (|t|,|s|,|p|) in {0..3}^3 and the triples one short / one long at 256 and 512; the three-run adaptive submitter of C08 \
+                rotations}; an accepted member next to a copy of itself with one response altered (4 layouts); all (|t|,|s|,|p|) in {0..3}^3 and the triples one short / one long at 256 and 512; the three-run adaptive submitter of C08 \
                 (two members invalid alone, shifts computed from earlier runs) on 2- and 3-batches; members that verify alone but disagree on bit length / degree / H / G_k / \
                 Gi,Hi at every position of a 3-batch (smaller, equal and larger than the rest) and beyond the chunk limit; \
                 oracle: Ok <=> every member verifies alone (library singleton = reference verdict), k results, i-th mask belongs to i-th triple"
